@@ -105,7 +105,8 @@ UndetAtoms == {[k |-> "origin_to", x |-> x] : x \in OriginTargets}
 \* documentation) and generators of Coxeter hyperbolic representations (diagonalisation dependent)
 Sl2Mats == {<<<<1, 1>>, <<0, 1>>>>, <<<<0, 0 - 1>>, <<1, 0>>>>, <<<<2, 1>>, <<1, 1>>>>, <<<<1, 0>>, <<0, 0 - 1>>>>,
             <<<<0, 1>>, <<1, 0>>>>, <<<<3, 2>>, <<1, 1>>>>}
-CoxGroups == IF N = 2 THEN {<<2, 3, 7>>, <<3, 3, 4>>, <<2, 4, 5>>, <<3, 4, 0>>}
+\* an infinite label is written 0 or negative
+CoxGroups == IF N = 2 THEN {<<2, 3, 7>>, <<3, 3, 4>>, <<2, 4, 5>>, <<3, 4, 0>>, <<3, 3, 0 - 2>>, <<0 - 1, 0 - 1, 0 - 1>>}
              ELSE IF N = 3 THEN {<<3, 5, 3>>, <<5, 3, 4>>} ELSE {}           \* linear diagrams [p,q,r]
 FormAtoms == (IF N = 2 THEN {[k |-> "sl2", A |-> A] : A \in Sl2Mats} ELSE {})
              \cup {[k |-> "cox", m |-> m, gen |-> i] : m \in CoxGroups, i \in 1..Dim}
